@@ -219,12 +219,25 @@ func c12RunWith(c *Case, withText bool) []any {
 		r["im"] = boolVerdict(func() bool { return schema.IsMatching(v.num) })
 		r["df"], _ = runMode(schema, v.f64)
 		// the request-side and response-side readings, in the three modes
-		r["qd"], _ = runMode(schema, v.num, openapi3.VisitAsRequest())
+		var qde, qme, pde, pme error
+		r["qd"], qde = runMode(schema, v.num, openapi3.VisitAsRequest())
 		r["qf"], _ = runMode(schema, v.num, openapi3.VisitAsRequest(), openapi3.FailFast())
-		r["qm"], _ = runMode(schema, v.num, openapi3.VisitAsRequest(), openapi3.MultiErrors())
-		r["pd"], _ = runMode(schema, v.num, openapi3.VisitAsResponse())
+		r["qm"], qme = runMode(schema, v.num, openapi3.VisitAsRequest(), openapi3.MultiErrors())
+		r["pd"], pde = runMode(schema, v.num, openapi3.VisitAsResponse())
 		r["pf"], _ = runMode(schema, v.num, openapi3.VisitAsResponse(), openapi3.FailFast())
-		r["pm"], _ = runMode(schema, v.num, openapi3.VisitAsResponse(), openapi3.MultiErrors())
+		r["pm"], pme = runMode(schema, v.num, openapi3.VisitAsResponse(), openapi3.MultiErrors())
+		if !withText {
+			// the errors of the two directed readings, where the directed reading rejects what the plain one accepts
+			// (the read-only / write-only rules): they must point at the data like any other schema error
+			if r["qd"] == "R" && r["d"] == "A" {
+				r["qde"] = projectTopErrors(qde, false)
+				r["qme"] = projectTopErrors(qme, false)
+			}
+			if r["pd"] == "R" && r["d"] == "A" {
+				r["pde"] = projectTopErrors(pde, false)
+				r["pme"] = projectTopErrors(pme, false)
+			}
+		}
 		// with an option that changes what is checked: it must reach every subschema in every mode
 		r["nd"], _ = runMode(schema, v.num, openapi3.DisablePatternValidation())
 		r["nf"], _ = runMode(schema, v.num, openapi3.DisablePatternValidation(), openapi3.FailFast())
